@@ -31,6 +31,7 @@ static Json::Value genC09(Rng& rng) {
        "kill_by_swap_usage", "kill_by_swap_usage", "kill_by_pressure",
        "kill_by_io_cost", "kill_by_pg_scan"});
   int nsib = (int)rng.range(1, 8);
+  bool twoDevs = rng.chance(0.4);
   int ticks = (int)rng.range(2, 7);
   Json::Value cgs(Json::arrayValue);
   Json::Value parent(Json::objectValue);
@@ -78,6 +79,22 @@ static Json::Value genC09(Rng& rng) {
     for (int k = 0; k < 6; k++)
       d.append((Json::Int64)rng.range(0, 1000000));
     io.append(d);
+    if (twoDevs) {
+      // a second monitored device of the other kind, before or after the
+      // first one in the file
+      Json::Value d3(Json::arrayValue);
+      d3.append("8:16");
+      for (int k = 0; k < 6; k++)
+        d3.append((Json::Int64)rng.range(0, 1000000));
+      if (rng.chance(0.5)) {
+        Json::Value sw(Json::arrayValue);
+        sw.append(d3);
+        sw.append(d);
+        io = sw;
+      } else {
+        io.append(d3);
+      }
+    }
     if (rng.chance(0.3)) {
       Json::Value d2(Json::arrayValue);
       d2.append("9:1"); // not a configured device
@@ -180,6 +197,9 @@ static Json::Value genC09(Rng& rng) {
   plan["scripts"]["pk0_det"] =
       rng.pick<std::string>({"C", "C", "C", "SC", "SSC", "CSSC", "SSSC"});
   plan["io_devs"]["8:0"] = rng.pick<std::string>({"ssd", "hdd"});
+  if (twoDevs)
+    plan["io_devs"]["8:16"] =
+        plan["io_devs"]["8:0"].asString() == "ssd" ? "hdd" : "ssd";
   for (const char* k : {"hdd_coeffs", "ssd_coeffs"}) {
     Json::Value c(Json::arrayValue);
     for (int i = 0; i < 6; i++)
@@ -197,6 +217,7 @@ static Json::Value genC09(Rng& rng) {
       op["cg"] = "w/c" + std::to_string(i);
       op["pgscan"] = (Json::Int64)(rng.chance(0.3) ? 0 : rng.range(1, 100000));
       op["io"] = (Json::Int64)(rng.chance(0.2) ? 0 : rng.range(0, 1000000));
+      op["io_line"] = (int)rng.below(3);
       if (rng.chance(0.5)) {
         int64_t cur = kids[i]["cur"].asInt64();
         double f = rng.pick({0.5, 1.0, 1.25, 1.5, 2.0, 4.0});
